@@ -174,6 +174,8 @@ def run(scn, n):
         cfg = make_cfg('sync')
         log = Log()
         d = dd.build(cfg, log)
+        # the interpreter hands over between threads as often as it can: the first dispatches of the fresh dispatcher overlap
+        sys.setswitchinterval(1e-6)
         results = [[] for _ in scn['seqs']]
         barrier = threading.Barrier(len(scn['seqs']))
 
